@@ -502,29 +502,36 @@ impl<'a> Parser<'a> {
     }
 
     fn parse_op(&mut self, exec_prec: i32, mut lhs: ExprAST<'a>) -> Result<ExprAST<'a>> {
-        let mut is_not = false;
         loop {
             if !self.tokenizer.cur_token.is_op_token() {
                 return Ok(lhs);
             }
-            if self.tokenizer.cur_token.is_not_token() {
-                is_not = true;
-                self.next()?;
-                if !self.cur_tok().is_binop_token() {
-                    return Err(Error::ExpectBinOpToken);
-                }
-                continue;
+            // `x not OP y`: the operator after `not` decides whether this level takes it
+            let is_not = self.tokenizer.cur_token.is_not_token();
+            if is_not && self.get_next_token_precidence()?.0 < 0 {
+                return Err(Error::ExpectBinOpToken);
             }
-            if self.tokenizer.cur_token.is_question_mark() {
+            if !is_not && self.tokenizer.cur_token.is_question_mark() {
+                // the conditional binds looser than every infix operator: leave it to the outermost level
+                if exec_prec > 0 {
+                    return Ok(lhs);
+                }
                 self.next()?;
                 let a = self.parse_expression()?;
                 self.expect(":")?;
                 let b = self.parse_expression()?;
                 return Ok(ExprAST::Ternary(Box::new(lhs), Box::new(a), Box::new(b)));
             }
-            let (l_bp, r_bp) = self.get_token_precidence();
+            let (l_bp, r_bp) = if is_not {
+                self.get_next_token_precidence()?
+            } else {
+                self.get_token_precidence()
+            };
             if l_bp < exec_prec {
                 return Ok(lhs);
+            }
+            if is_not {
+                self.next()?;
             }
             let op: &str = match self.tokenizer.cur_token {
                 Token::Operator(op, _) => op,
@@ -533,15 +540,25 @@ impl<'a> Parser<'a> {
             self.next()?;
             let mut rhs = self.parse_primary()?;
 
-            let (cur_l_bp, _) = self.get_token_precidence();
-            if self.tokenizer.cur_token.is_binop_token() && r_bp < cur_l_bp {
+            let (cur_l_bp, _) = if self.tokenizer.cur_token.is_not_token() {
+                self.get_next_token_precidence()?
+            } else {
+                self.get_token_precidence()
+            };
+            if r_bp < cur_l_bp {
                 rhs = self.parse_op(r_bp, rhs)?;
             }
             lhs = ExprAST::Binary(op, Box::new(lhs), Box::new(rhs));
             if is_not {
                 lhs = ExprAST::Unary("not", Box::new(lhs));
-                is_not = false;
             }
+        }
+    }
+
+    fn get_next_token_precidence(&self) -> Result<(i32, i32)> {
+        match self.tokenizer.peek()? {
+            Token::Operator(op, _) => Ok(InfixOpManager::new().get_precidence(op)),
+            _ => Ok((-1, -1)),
         }
     }
 
